@@ -311,7 +311,7 @@ def parity(r, F, A, effects, observe_one_sided=True, floors=True):
                         "the x64 and arm64 implementations of %s::%s differ in %s: x64 %s, arm64 %s — the same Dora "
                         "program behaves differently on the two targets (a check, slow path, runtime call, barrier or "
                         "table record exists on one side only)" % (k[0], k[1], e, fmt(a), fmt(b)),
-                        LA.bodies[k][0].file)
+                        "%s:%d" % (LA.bodies[k][0].file, LA.bodies[k][0].line))
     return LX, LA, n_non_empty
 
 
@@ -673,12 +673,17 @@ def rule_div_width(chk, F, A):
                 continue
             for (pat, g, arm) in hirq.match_arms(m):
                 modes = [last(d) for d in hirq.pat_paths(pat) if "MachineMode::" in d]
+                flags = None
                 for cs in hirq.calls(arm):
                     if not (cs.is_method and (cs.callee or "").startswith(A64)):
                         continue
+                    if mnemonic(cs.name) in ("cmp", "cmn", "tst", "subs", "adds", "ands"):
+                        flags = cs.name
                     if any(hirq.local_name(a) in labels for a in cs.args):
+                        # a conditional branch has no width of its own: the compare that set the flags has
+                        t = cs.name if insns.width(cs.name) is not None or flags is None else flags
                         for mo in modes:
-                            tests.setdefault(mo, set()).add(cs.name)
+                            tests.setdefault(mo, set()).add(t)
                     if mnemonic(cs.name) in ("sdiv", "udiv"):
                         for mo in modes:
                             divs.setdefault(mo, set()).add(cs.name)
